@@ -42,10 +42,13 @@ class C46(hc.PProp):
             steps = []
             for _ in range(rng.randint(3, 10)):
                 rid += 1
-                kind = rng.choice(['valid', 'valid', 'valid', 'wrongpw', 'unknown', 'none', 'garbled', 'otherpw'])
+                kind = rng.choice(['valid', 'valid', 'valid', 'wrongpw', 'unknown', 'none', 'garbled', 'otherpw', 'pwsuffix', 'pwprefix', 'pwcase'])
                 u = rng.choice(sorted(USERS))
                 if kind == 'valid': cred = (u, USERS[u])
                 elif kind == 'wrongpw': cred = (u, 'wrong' + USERS[u])
+                elif kind == 'pwsuffix': cred = (u, USERS[u] + rng.choice(['X', ' ', '-but-wrong', USERS[u]]))   # near misses of the cached/pending password
+                elif kind == 'pwprefix': cred = (u, USERS[u][:rng.randint(1, len(USERS[u]) - 1)])
+                elif kind == 'pwcase': cred = (u, USERS[u].swapcase())
                 elif kind == 'otherpw': cred = (u, USERS[rng.choice(sorted(USERS))])
                 elif kind == 'unknown': cred = ('mallory', 'x1')
                 elif kind == 'garbled': cred = ('garbled', None)
@@ -69,9 +72,9 @@ class C46(hc.PProp):
         for u, pw in sorted(USERS.items()):
             mx = plan['revoke'][u]
             chan = ' chan dup' if plan['dup_reply'] and u == 'alice' else ''
-            h.add('rule ok_%s%s has %s reply %s delay %d%s' % (u, ' max %d' % mx if mx else '', tok(('%s %s' % (u, pw)).encode()), tok(b'OK'), plan['delays'][u], chan))
+            h.add('rule ok_%s%s has %s reply %s delay %d%s' % (u, ' max %d' % mx if mx else '', tok(('%s %s\n' % (u, pw)).encode()), tok(b'OK'), plan['delays'][u], chan))
             if mx:
-                h.add('rule revoked_%s has %s reply %s delay %d' % (u, tok(('%s %s' % (u, pw)).encode()), tok(b'ERR message="revoked"'), plan['delays'][u]))
+                h.add('rule revoked_%s has %s reply %s delay %d' % (u, tok(('%s %s\n' % (u, pw)).encode()), tok(b'ERR message="revoked"'), plan['delays'][u]))
         h.add('rule other reply %s delay %d' % (tok(b'BH message="sim"' if plan['bh_other'] else b'ERR'), plan['delays']['other']))
         for c in plan['conns']:
             cl = scn.client(c['name'], start=c['start'])
@@ -105,7 +108,10 @@ class C46(hc.PProp):
                 line = line.split(' ', 1)[1]
             u = rule.split('_', 1)[1] if '_' in rule else 'other'
             delay = plan['delays'].get(u, plan['delays']['other'])
-            verdicts.append((t + delay, line.strip(), 'OK' if rule.startswith('ok_') else 'ERR'))
+            # squid sends "<user> <password>" with each part rfc1738-escaped: compare on the decoded pair, not on the wire form
+            parts = line.rstrip('\r\n').split(' ', 1)
+            unesc = lambda x: re.sub(r'%([0-9a-fA-F]{2})', lambda m: chr(int(m.group(1), 16)), x)
+            verdicts.append((t + delay, ' '.join(unesc(x) for x in parts), 'OK' if rule.startswith('ok_') else 'ERR'))
         steps = {}
         for c in plan['conns']:
             for st in c['steps']:
